@@ -3,6 +3,8 @@ import WebpVerif.Props.C15
 import WebpVerif.Props.C06
 import WebpVerif.Props.C10
 import WebpVerif.Model.Container
+import WebpVerif.Lemmas.HuffShort
+import WebpVerif.Lemmas.LLoop
 
 /-!
 # C03 — no byte string makes decoding panic, overflow, hang or index out of bounds
@@ -98,5 +100,87 @@ theorem header_consumes_8 (r r' : Container.Reader) (x : List Nat × Nat × Nat)
       exact ⟨by show r.pos + 4 + 4 = r.pos + 8; omega, rfl⟩
     · simp only [h2, if_false] at h; cases h
   · simp only [h1, if_false] at h; cases h
+
+/-! ### the VP8L pixel loop and the entropy decoder never fail by accident -/
+
+theorem specCopy_cache_size (c : LLoop.Cfg) (d cache : Array Nat) (index dist : Nat) :
+    ∀ len, (LLoop.specCopy c d cache index dist len).2.size = cache.size := by
+  intro len
+  induction len with
+  | zero => rfl
+  | succ len ih =>
+    show (LLoop.insert c (LLoop.specCopy c d cache index dist len).2 _).size = cache.size
+    rw [LLoop.insert_size, ih]
+
+def isPanic : LLoop.Res → Bool
+  | .panic _ => true
+  | _ => false
+
+theorem specRun_no_panic (c : LLoop.Cfg) : ∀ (ops : List LLoop.Op) (d : Array Nat) (index : Nat) (cache : Array Nat),
+    (c.cacheBits ≠ 0 → cache.size = 2 ^ c.cacheBits) →
+    (∀ k, LLoop.Op.cache k ∈ ops → k < 2 ^ c.cacheBits) →
+    isPanic (LLoop.specRun c ops d index cache) = false := by
+  intro ops
+  induction ops with
+  | nil => intro d index cache _ _; rw [LLoop.specRun]; split <;> rfl
+  | cons op rest ih =>
+    intro d index cache hsz hk
+    have hk' : ∀ k, LLoop.Op.cache k ∈ rest → k < 2 ^ c.cacheBits := fun k hm => hk k (List.mem_cons_of_mem _ hm)
+    cases op with
+    | lit v =>
+      rw [LLoop.specRun]
+      try simp only
+      split
+      · rfl
+      · exact ih _ _ _ (fun hb => by rw [LLoop.insert_size]; exact hsz hb) hk'
+    | back len dist =>
+      rw [LLoop.specRun]
+      try simp only
+      split
+      · rfl
+      · split
+        · rfl
+        · exact ih _ _ _ (fun hb => by rw [specCopy_cache_size]; exact hsz hb) hk'
+    | cache k =>
+      rw [LLoop.specRun]
+      try simp only
+      split
+      · rfl
+      · split
+        · rfl
+        · rename_i hb
+          have hlt := hk k List.mem_cons_self
+          rw [if_neg (by rw [hsz hb]; omega)]
+          exact ih _ _ _ (fun hb' => by rw [LLoop.insert_size]; exact hsz hb') hk'
+
+/-- **The pixel loop of `decode_image_data` has no failing index.**  For every image size, group
+    layout, colour-cache size and every operation list an entropy decoder can produce (cache
+    symbols below the cache size; single-symbol groups consistent), the model of the loop - the
+    fast path's slice, the cache lookups, the three copy strategies - never reaches one of its
+    out-of-range cases: it returns pixels, `BitStreamError`, or asks for more symbols. -/
+theorem pixel_loop_never_panics (c : LLoop.Cfg) (h32 : c.cacheBits ≤ 32) (hw : 0 < c.width) (init : Array Nat)
+    (ops : List LLoop.Op) (hinit : init.size = c.width * c.height)
+    (hcons : LLoop.cons c (c.width * c.height + 1) 0 0 ops = true)
+    (hk : ∀ k, LLoop.Op.cache k ∈ ops → k < 2 ^ c.cacheBits) :
+    isPanic (LLoop.decode c init ops) = false := by
+  rw [LLoop.decode_refines c h32 hw init ops hinit hcons]
+  unfold LLoop.specDecode
+  apply specRun_no_panic c ops init 0 _ _ hk
+  intro hb
+  rw [Array.size_replicate, if_neg hb]
+
+/-- **`read_symbol` never fails on a valid code while bits remain**: no `Empty` node, no index
+    outside the table or the tree vector is ever reached (the model answers such an access with
+    an error, which this theorem excludes) - for every valid length vector and every string of at
+    least 15 bits -/
+theorem huffman_read_never_fails (ls : List Nat) (hall : ∀ l ∈ ls, l ≤ 15) (hn : ls.length ≤ 5000)
+    (hv : Prefix.validLengths ls = true) (bits : List Nat) (hb : ∀ b ∈ bits, b < 2) (hlen : 15 ≤ bits.length) :
+    (Huff.readSym (Huff.build ls) bits).isSome = true := by
+  rcases Huff.build_total ls hall hn hv with ⟨t, ht⟩ | ⟨s, hs⟩
+  · obtain ⟨hgood, hnum, L, hL1, hL15, hmax, hend⟩ := Huff.build_good ls hall hn t ht
+    rw [ht, Huff.readSym_good t ls hgood hall L hL1 hL15 hend bits hb (by omega)]
+    obtain ⟨s, rest, hdec⟩ := Prefix.decodeSym_total ls L hL1 hend 15 0 0 bits (by omega) (by omega) hb (by decide) (Nat.le_of_eq rfl)
+    rw [hdec]; rfl
+  · rw [hs]; rfl
 
 end C03
